@@ -9,8 +9,12 @@
 (*   TRACE_FILE  ndjson, one trace per line:                               *)
 (*     subjects  [agg -> sequence of submitted subjects] (record by agg)   *)
 (*     prior     sequence of subjects already in the initial file          *)
-(*     ev        <<[files, snaps]>>  files as in Trace_Aggregator,         *)
+(*     ev        <<[files, snaps, mid]>>  files as in Trace_Aggregator,    *)
 (*               snaps: sequence of statistics snapshots taken so far      *)
+(*               (rows: what the object holds; seen: the complete rows in  *)
+(*               the file when its caller read it), mid: output files that *)
+(*               are between the two pieces of a row (split-write          *)
+(*               environment: their last line "~s" is a torn line)         *)
 (*     ends      set of event indices at which a session ended unkilled    *)
 (*     outs      the output file names                                     *)
 (*     foreign   the initial file carries another configuration's header   *)
@@ -31,8 +35,11 @@ Next == \/ /\ l < Len(Tr.ev) /\ l' = l + 1 /\ UNCHANGED tid
 Spec == Init /\ [][Next]_<<tid, l, files, prev>>
 
 Outs == Range(Tr.outs)
-Rows(o) == files[o].ls
 Subj(o) == Range(Tr.subjects[o]) \cup Range(Tr.prior)
+TornOf(o) == {"~" \o s : s \in Subj(o)}
+\* the lines of an output file; while a writer is between the two pieces of a row, without that torn last line
+StripTorn(ls, o) == IF Len(ls) > 0 /\ ls[Len(ls)] \in TornOf(o) THEN SubSeq(ls, 1, Len(ls) - 1) ELSE ls
+Rows(o) == IF l >= 1 /\ o \in Range(Tr.ev[l].mid) THEN StripTorn(files[o].ls, o) ELSE files[o].ls
 
 NoDupRows       == l >= 1 => \A o \in Outs : \A s \in Range(Rows(o)) \ {"H"} : Count(Rows(o), s) = 1
 HeaderFirstOnce == (l >= 1 /\ ~Tr.foreign) => \A o \in Outs : Len(Rows(o)) > 0 => Rows(o)[1] = "H" /\ Count(Rows(o), "H") = 1
@@ -40,8 +47,8 @@ RowsAreSubjects == l >= 1 => \A o \in Outs : Range(Rows(o)) \subseteq {"H"} \cup
 \* an output file written with another configuration (foreign header) is refused by the constructor
 \* and never modified
 ForeignRefused == (l >= 1 /\ Tr.foreign) => (files = Tr.init /\ (l = Len(Tr.ev) => Tr.ctorfailed))
-RowsAppendOnly  == l >= 1 => \A o \in Outs : /\ Len(Rows(o)) >= Len(prev[o].ls)
-                                             /\ SubSeq(Rows(o), 1, Len(prev[o].ls)) = prev[o].ls
+RowsAppendOnly  == l >= 1 => \A o \in Outs : LET old == StripTorn(prev[o].ls, o)  new == StripTorn(files[o].ls, o) IN
+                                             /\ Len(new) >= Len(old) /\ SubSeq(new, 1, Len(old)) = old
 \* at the unkilled end of a session: header once and every subject exactly once
 ExactlyOnePerSubject ==
     (l >= 1 /\ l \in Range(Tr.ends)) =>
@@ -50,6 +57,9 @@ ExactlyOnePerSubject ==
 SnapOnlyComplete ==
     l >= 1 => \A i \in 1..Len(Tr.ev[l].snaps) :
                  Range(Tr.ev[l].snaps[i].rows) \subseteq Subj(Tr.ev[l].snaps[i].out)
+\* a statistics object reflects only rows that were complete in the file when its caller read it
+SnapWithinRead ==
+    l >= 1 => \A i \in 1..Len(Tr.ev[l].snaps) : Range(Tr.ev[l].snaps[i].rows) \subseteq Range(Tr.ev[l].snaps[i].seen)
 NoCallFailed == l >= 1 => Tr.ev[l].failed = 0
 \* constructing an aggregator on a file of its own configuration (or on no / an empty file) never fails
 CtorSucceeds == (l >= 1 /\ l = Len(Tr.ev) /\ ~Tr.foreign) => ~Tr.ctorfailed
